@@ -49,7 +49,7 @@ def run(tier, seed):
         res.extra["enumerated_subspace"] = "generator states enumerated (x12 bounds): %d (2^31 = 2147483648; asan+plain blocks may overlap)" % n
         res.extra["max_draws_observed"] = mx
     return generic.run_spec("C46", tier, seed, steps(seed, tier), RULE,
-                            required=["wr_states", "wr_evaluations_with_redraw", "wr_result_lowest", "wr_result_highest", "wr_random_tops",
+                            required=["select_add_failed_by_injected_oom", "group_members_moved_to_other_group", "wr_states", "wr_evaluations_with_redraw", "wr_result_lowest", "wr_result_highest", "wr_random_tops",
                                       "rng_calls", "rng_zero_length", "rng_positions_checked",
                                       "e2e_poll_dispatches", "e2e_select_dispatches", "e2e_mt_registrations_during_wait", "e2e_choices", "e2e_choices_with_redraw",
                                       "e2e_steered_to_raw_maximum", "e2e_range_model_matches", "e2e_started_mid_table",
